@@ -139,6 +139,37 @@ pub fn check_interpreter(make: &dyn Fn() -> Result<Interpreter, String>, o: &mut
     if fb != last {
         return Err(failure("run_equals_stepping_stacks", format!("run(): stack {:?} alt {:?}", fb.0.iter().map(hex::encode).collect::<Vec<_>>(), fb.1.iter().map(hex::encode).collect::<Vec<_>>()), format!("stepping: stack {:?} alt {:?}", last.0.iter().map(hex::encode).collect::<Vec<_>>(), last.1.iter().map(hex::encode).collect::<Vec<_>>())));
     }
+    // a clone taken half-way finishes like the original; a copy that went through the serde form is at least total
+    if steps >= 2 {
+        let mut c = match lib_call("Interpreter constructor", make)? {
+            Ok(i) => i,
+            Err(e) => return Err(failure("constructor_deterministic", format!("third construction failed: {}", e), "Ok as the first time")),
+        };
+        for _ in 0..steps / 2 {
+            let _ = lib_call("next", || c.next())?;
+        }
+        let mut d = c.clone();
+        let rd = lib_call("run (clone taken half-way)", || d.run())?;
+        ensure_eq!(rd.is_err(), errored, "clone_continues_like_the_original_outcome");
+        let fd = stacks(&d);
+        if fd != last {
+            return Err(failure("clone_continues_like_the_original_stacks", format!("stack {:?} alt {:?}", fd.0.iter().map(hex::encode).collect::<Vec<_>>(), fd.1.iter().map(hex::encode).collect::<Vec<_>>()), format!("stack {:?} alt {:?}", last.0.iter().map(hex::encode).collect::<Vec<_>>(), last.1.iter().map(hex::encode).collect::<Vec<_>>())));
+        }
+        if let Ok(text) = serde_json::to_string(&c) {
+            if let Ok(mut e) = serde_json::from_str::<Interpreter>(&text) {
+                let mut n = 0usize;
+                while let Some(step) = lib_call("next (after a serde round trip)", || e.next())? {
+                    n += 1;
+                    ensure!(n <= bound + 1, "terminates_within_element_count", format!("{} steps after a serde round trip", n), format!("at most {}", bound));
+                    if step.is_err() {
+                        break;
+                    }
+                }
+                o.label("continued-after-serde-round-trip");
+            }
+        }
+        o.label("continued-from-a-clone");
+    }
     // stepping past the end keeps returning None
     if !errored {
         ensure!(lib_call("next after end", || a.next())?.is_none(), "next_after_end", "Some", "None");
@@ -214,7 +245,7 @@ impl Property for C16 {
     const ID: &'static str = "C16";
 
     fn rule() -> String {
-        "Opcode soup over every opcode value of the library's table (reserved, disabled, template pseudo-opcodes; via from_script_bits also bare structural and PUSHDATA opcodes) with adversarial operands (negative, 2^31 +/- 1, > 4 bytes, empty, negative zero), signature- and key-shaped pushes, initial stacks of depth 0..6, nested conditionals (random trees; straight nests to depth 150 / 300); random byte strings that parse; a Coinbase element; interpreters built from transaction inputs with/without locking script and value running CHECKSIG/CHECKMULTISIG on garbage signatures and off-curve keys, half of them behind or inside conditionals holding code separators; interpreters handed their element list directly (from_transaction_and_script_bits) with more elements than the input's locking script, and inputs whose unlocking script is one opaque Coinbase element that re-reads as several. Oracle: no panic (catch_unwind) and no process death (supervised child + journal); steps <= elements of the flattened tree + 1; stepping to the end and run() give the same Ok/Err and the same final stacks; after an Err the stacks equal the last returned state. Non-trivial = >= 3 executed steps or an error path reached; distinct by hash of the serialised case.".into()
+        "Opcode soup over every opcode value of the library's table (reserved, disabled, template pseudo-opcodes; via from_script_bits also bare structural and PUSHDATA opcodes) with adversarial operands (negative, 2^31 +/- 1, > 4 bytes, empty, negative zero), signature- and key-shaped pushes, initial stacks of depth 0..6, nested conditionals (random trees; straight nests to depth 150 / 300); random byte strings that parse; a Coinbase element; interpreters built from transaction inputs with/without locking script and value running CHECKSIG/CHECKMULTISIG on garbage signatures and off-curve keys, half of them behind or inside conditionals holding code separators; interpreters handed their element list directly (from_transaction_and_script_bits) with more elements than the input's locking script, and inputs whose unlocking script is one opaque Coinbase element that re-reads as several. Oracle: no panic (catch_unwind) and no process death (supervised child + journal); steps <= elements of the flattened tree + 1; stepping to the end and run() give the same Ok/Err and the same final stacks; after an Err the stacks equal the last returned state; a clone taken half-way finishes with the same outcome and stacks, and a copy that went through the interpreter's serde form half-way still steps to an end without panicking. Non-trivial = >= 3 executed steps or an error path reached; distinct by hash of the serialised case.".into()
     }
 
     fn assumptions() -> Vec<String> {
